@@ -162,6 +162,24 @@ func GenerateSolo(r *lp.Rng, index int) *Design {
 			{Name: "flag", Att: &Att{Type: &Type{Prim: "Boolean"}, HasDef: true, Default: true}},
 			{Name: "label", Att: &Att{Type: &Type{Prim: "String"}, HasDef: true, Default: "dflt"}}}},
 			Required: []string{"names", "items", "count", "flag", "label"}}})
+	// Reference: types that re-declare inherited attributes with validations of their own next to the base type and to each other;
+	// each type keeps ITS bounds
+	d.Types = append(d.Types,
+		&TypeDef{Name: "RefBase", Kind: "type", Att: &Att{Type: &Type{IsObject: true, Object: []*Field{
+			{Name: "level", Att: &Att{Type: &Type{Prim: "Int"}, Val: &Validation{Min: fp(10), Max: fp(50)}}},
+			{Name: "tag", Att: &Att{Type: &Type{Prim: "String"}, Val: &Validation{MaxLen: ip(8)}}},
+			{Name: "marks", Att: &Att{Type: &Type{Array: &Att{Type: &Type{Prim: "Int"}, Val: &Validation{Min: fp(1)}}}, Val: &Validation{MaxLen: ip(4)}}}}}}},
+		&TypeDef{Name: "RefRelaxed", Kind: "type", Reference: "RefBase", Att: &Att{Type: &Type{IsObject: true, Object: []*Field{
+			{Name: "level", Att: &Att{Val: &Validation{Min: fp(0)}}},
+			{Name: "tag", Att: &Att{}},
+			{Name: "marks", Att: &Att{Val: &Validation{MaxLen: ip(6)}}}}}}},
+		&TypeDef{Name: "RefStrict", Kind: "type", Reference: "RefBase", Att: &Att{Type: &Type{IsObject: true, Object: []*Field{
+			{Name: "level", Att: &Att{Val: &Validation{Max: fp(20)}}},
+			{Name: "tag", Att: &Att{Val: &Validation{MaxLen: ip(3)}}},
+			{Name: "marks", Att: &Att{}}}}}})
+	for _, tn := range []string{"RefRelaxed", "RefBase", "RefStrict"} {
+		s.Methods = append(s.Methods, &Method{Name: "put_" + lower(tn), Payload: &Att{Type: &Type{Ref: tn}}, HTTP: &HTTPMap{Verb: "POST", Path: "/" + lower(tn)}})
+	}
 	_ = r
 	return d
 }
